@@ -1376,7 +1376,8 @@ class C16(Prop):
             feats.add("session:load:delimiter=" + dname)
             if name is not None:  # the field of the view is recorded, the property speaks of shape and values
                 feats.add("session:load:name")
-                feats.add("session:load:name:field-as-requested" if names == [name] else "session:load:name:field-not-as-requested")
+                if "raises" not in seen:
+                    feats.add("session:load:name:field-as-requested" if names == [name] else "session:load:name:field-not-as-requested")
             elif names is not None:
                 seen["names"] = names
             if d is None and any(x != "default" for x in named_before):
@@ -1399,9 +1400,11 @@ class C16(Prop):
                 if conv_side(lean["spec"][j]) != {**sp}:  # the Lean session model on the model's rendering: equal by theorem
                     notes.append(f"step {i}: the session specification differs from the image (Clean violated?)")
                     hyp = False
-            else:  # the property does not say what this call returns: the model is all there is to compare with
-                sp = m
+            else:  # the property does not say what this call returns (a saved file read with a named delimiter, a file
+                # read with a delimiter it does not use, any other text): the difference from the model is recorded only
                 feats.add("session:load:outside-the-property-text")
+                feats.add("session:load:outside-the-property-text:" + ("as-modelled" if seen == m else "not-as-modelled (recorded only)"))
+                seen = m = sp = {"not-judged": True}
             impl.append(seen), model.append(m), spec.append(sp)
             if res["note"]:
                 notes.append(f"step {i}: {res['note']}")
@@ -1442,8 +1445,13 @@ class C16(Prop):
         else:
             impl, f, real_head = {"raises": got["raises"]}, None, ""
             note = got.get("note", "")
+        # the appended bytes of the real file, for the Lean byte-level reader (left out when they are many)
+        body = raw[len(f["head"]):len(f["head"]) + f["body_bytes"]] if f is not None else None
         rep = ctx.driver.call("c16.vtk", n0=n0, n1=n1, n2=n2, endian=endian, spacing=sp_tokens, head=real_head,
+                              body=body.hex() if body is not None and len(body) <= 262144 else None,
                               fields=[{"name": n, "data": vals} for n, vals in zip(names, case["vals"])])
+        if "byte_blocks" in rep["model"] and rep["model"].pop("byte_blocks") != rep["model"]["blocks"]:
+            raise AssertionError("the byte-level reader and the word-level reader of the model differ")  # equal by theorem
         want_spacing = [tok(float(t)) for t in sp_tokens]
 
         def num(tokens, reference=None):
@@ -1471,7 +1479,8 @@ class C16(Prop):
             ext = side["meta"]["whole"]
             ncells8 = (ext[1] - ext[0]) * (ext[3] - ext[2]) * (ext[5] - ext[4]) * 8 if len(ext) == 6 else None
             return {"meta": meta_view(side["meta"]), "blocks": side["blocks"], "appended": side["appended"],
-                    "ncells_times_8": [ncells8] * len(side["meta"]["arrays"]), "lean_reader": meta_view(side["meta"])}
+                    "ncells_times_8": [ncells8] * len(side["meta"]["arrays"]), "lean_reader": meta_view(side["meta"]),
+                    "lean_reader_blocks": side["blocks"]}
 
         model, spec = view(rep["model"]), view(rep["spec"])
         hyp = False
@@ -1487,11 +1496,16 @@ class C16(Prop):
             if rep["real_meta"] is None:
                 feats.add("vtk:header-outside-lean-reader-subset")
                 impl["lean_reader"] = impl["meta"]  # the independent reader's view stands in; nothing compared twice
+            # the model's byte-level reader on the real appended bytes, at the offsets the real header declares
+            if rep["real_blocks"] is not None:
+                impl["lean_reader_blocks"] = rep["real_blocks"]
+                feats.add("vtk:appended-bytes-read-by-lean-reader")
+            else:
+                impl["lean_reader_blocks"] = impl["blocks"]
             # the model's rendering of the whole file against the bytes pewlib wrote
             r = rep["rendered"]
             if r is not None:
-                bo = "<" if endian == "LittleEndian" else ">"
-                mine = r["head"].encode() + b"".join(struct.pack(bo + "q", int(w)) for w in r["words"]) + r["tail"].encode()
+                mine = r["head"].encode() + bytes.fromhex(r["body_hex"]) + r["tail"].encode()  # every byte from the model
                 same = mine == raw
                 feats.add("vtk:file=model-rendering" if same else "vtk:file!=model-rendering")
                 if not same and r["head"].encode() == f["head"]:
